@@ -19,6 +19,9 @@ struct NameCase {
     kind: String, // "file" | "marker"
     action: String, // "commit" | "drop"
     resource_exists: bool,
+    /// how the boundary directory is spelled when handed to gix-lock: 0 plain, 1 with a trailing separator, 2 with an inner "/./"
+    #[serde(default)]
+    boundary_spelling: u8,
 }
 
 fn os(b: &[u8]) -> &OsStr {
@@ -31,7 +34,9 @@ fn listing(root: &Path) -> Vec<String> {
 
 fn eval_name(c: &NameCase) -> Verdict {
     let d = vkit::scratch::Dir::new("c22n");
-    let boundary = d.path().to_owned();
+    // the boundary is a directory of its own below an otherwise empty parent, so that a cleanup that walks too far is visible
+    let boundary = d.path().join("outer").join("bound");
+    std::fs::create_dir_all(&boundary).unwrap_or_else(|e| vkit::machinery!("mkdir: {e}"));
     let mut dir = boundary.clone();
     for n in &c.nested {
         dir.push(os(n));
@@ -45,7 +50,12 @@ fn eval_name(c: &NameCase) -> Verdict {
     let mut expected_lock = resource.as_os_str().as_bytes().to_vec();
     expected_lock.extend_from_slice(b".lock");
     let expected_lock = PathBuf::from(os(&expected_lock));
-    let bdir = if c.nested.is_empty() { None } else { Some(boundary.clone()) };
+    let spelled_boundary = match c.boundary_spelling {
+        0 => boundary.clone(),
+        1 => PathBuf::from(format!("{}/", boundary.display())),
+        _ => d.path().join("outer").join(".").join("bound"),
+    };
+    let bdir = if c.nested.is_empty() { None } else { Some(spelled_boundary) };
     let mode = gix_lock::acquire::Fail::Immediately;
 
     enum Held {
@@ -126,6 +136,9 @@ fn eval_name(c: &NameCase) -> Verdict {
                 drop(f)
             }
             Held::M(m) => drop(m),
+        }
+        if !boundary.is_dir() {
+            return bad("boundary-removed", format!("dropping the lock removed the boundary directory itself (spelling {}); left: {:?}", c.boundary_spelling, listing(d.path())));
         }
         let mut after = listing(&boundary);
         after.sort();
@@ -358,7 +371,13 @@ pub fn run(run: &'static Run) {
                                 if run.quick() && ni > 0 && n.len() > 3 {
                                     continue;
                                 }
-                                emit(NameCase { name: B(n.clone()), nested: nested.clone(), kind: kind.into(), action: action.into(), resource_exists: exists });
+                                emit(NameCase { name: B(n.clone()), nested: nested.clone(), kind: kind.into(), action: action.into(), resource_exists: exists, boundary_spelling: 0 });
+                                // other spellings of the same boundary directory (short names only: the name plays no role here)
+                                if ni > 0 && n.len() <= 2 {
+                                    for sp in 1..=2u8 {
+                                        emit(NameCase { name: B(n.clone()), nested: nested.clone(), kind: kind.into(), action: action.into(), resource_exists: exists, boundary_spelling: sp });
+                                    }
+                                }
                             }
                         }
                     }
